@@ -154,7 +154,11 @@ pub fn run_check(prop: &str, tier: &str) -> i32 {
         "C02" => {
             let s = suites::crash_suites(thorough);
             let plan = crashprops::CrashPlan { crash: true, layout_tag: "C10", nest: 0, reopen_cycles: 0, sector_tear: true, layout: false, probe_auto_ts: false, continue_after: true };
-            crashprops::crash_check(prop, s, &["C02", "C11"], plan, budget * 0.55, &mut report);
+            crashprops::crash_check(prop, s, &["C02", "C11"], plan, budget * 0.35, &mut report);
+            // the overwrite / reuse chains on tiny devices once more without sector tearing: deeper
+            let deep: Vec<Suite> = suites::crash_suites(thorough).into_iter().filter(|s| ["crash-full4-v3", "crash-small-v3", "crash-reuse-v3", "crash-ttl-reuse-v3"].contains(&s.name.as_str())).collect();
+            let plan = crashprops::CrashPlan { crash: true, layout_tag: "C10", nest: 0, reopen_cycles: 0, sector_tear: false, layout: false, probe_auto_ts: false, continue_after: true };
+            crashprops::crash_check("C02-deep", deep, &["C02", "C11"], plan, budget * 0.2, &mut report);
             // acknowledged flushes on legacy-format devices with records at the block boundaries:
             // an independent reader must find the live contents in the file at every acknowledgement
             let edge: Vec<Suite> = suites::partition_suites(thorough).into_iter().filter(|s| s.name.starts_with("part-edge")).collect();
